@@ -60,8 +60,31 @@ MCThinCases == { [vdims |-> <<1, 4, 7>>, centre |-> <<a, b, c>>, shape |-> sh] :
                                                                              sh \in { <<2, 2, 2>>, <<2, 4, 6>> } }
 MCWindowAll == MCWindowCases \cup MCCentredCases \cup MCThinCases
 
+\* ---- fractional centres (units of 1/8 voxel) on both sides of 0 and of the upper face, exact .5 included, even and odd
+\* shapes, 1-voxel windows
+MCWindowQCases == { [vdims |-> MCVDims, centre |-> <<a, b, c>>, shape |-> sh, u |-> 8] :
+                       a \in {-36, -4, -1, 4, 12, 31, 36}, b \in {-12, 3, 20, 44}, c \in {-5, 4, 28, 52},
+                       sh \in { <<2, 4, 6>>, <<3, 5, 7>>, <<8, 1, 4>> } }
+                  \cup { [vdims |-> MCVDims, centre |-> <<10 * a, 10 * b, 10 * c>>, shape |-> <<4, 4, 4>>, u |-> 10] :   \* tenths
+                         a \in {-5, 7, 25}, b \in {-13, 5, 41}, c \in {15, 66} }
+\* ---- fractional complete positions (1/8 voxel) from below voxel 1 to beyond the upper face; even and odd template boxes
+Tmpl7 == [S |-> 7, cells |-> << Cell(<<0, 0, 0>>, TRUE), Cell(<<1, 0, 0>>, TRUE), Cell(<<2, 0, 0>>, TRUE),
+                                Cell(<<0, -1, 0>>, TRUE), Cell(<<0, 0, 2>>, TRUE), Cell(<<-1, 1, 0>>, FALSE) >>]
+QPoseSeq(n, k) == [i \in 1..n |-> [pos |-> << ((13 * i + 5 * k) % 120) - 12, ((29 * i + 7 * k) % 104) - 12, ((37 * i + 11 * k) % 96) - 12 >>,
+                                   R |-> Tri((7 * i + 11 * k) % 64), colour |-> 1 + ((i + k) % 4)]]
+MCPlaceQCases == { [cdims |-> MCCDims, tmpl |-> t, poses |-> QPoseSeq(n, k), u |-> 8] : t \in {Tmpl8, Tmpl6, Tmpl7}, n \in {1, 3, 7}, k \in 0..5 }
+                 \cup { [cdims |-> MCCDims, tmpl |-> Tmpl7, poses |-> << [pos |-> <<8 * 6 + f, 8 * 5, 8 * 4 - f>>, R |-> r, colour |-> 2] >>, u |-> 8] :
+                        f \in {0, 1, 3, 4, 5, 7}, r \in {Id, Rz1, Mul(Rx1, Ry1)} }
+                 \cup { [cdims |-> MCCDims, tmpl |-> Tmpl8, poses |-> << [pos |-> <<f, 8 * 5, 8 + f>>, R |-> Rx1, colour |-> 3] >>, u |-> 8] :
+                        f \in {-9, -4, -1, 0, 3, 4, 8} }
+
 \* ---- symmetrisation
 MCSymCases == { [dims |-> dd, n |-> n] : dd \in { <<5, 5, 5>>, <<6, 6, 6>>, <<7, 6, 5>>, <<8, 8, 4>> }, n \in {1, 2, 4} }
+
+\* integral and fractional cases go through the same constants (told apart by the field u)
+MCPlaceAll == MCPlaceCases \cup MCPlaceQCases
+MCPlaceAllBig == MCPlaceCasesBig \cup MCPlaceQCases
+MCWindowAllQ == MCWindowAll \cup MCWindowQCases
 
 Empty == {}
 =============================================================================
